@@ -1391,8 +1391,131 @@ fn c17_stall_signal_at_yield_point(dir: PathBuf) -> ScenFut<'static> {
     })
 }
 
+fn c12_torn_tail_behind_compression_header(dir: PathBuf) -> ScenFut<'static> {
+    Box::pin(async move {
+        use surrealkv::verif::{verif_wal_read_segment, VerifWal, VerifWalEnd};
+        std::fs::create_dir_all(&dir).map_err(|e| e.to_string())?;
+        let mut w = VerifWal::open(&dir, 1 << 30, true).map_err(|e| e.to_string())?;
+        w.append(&crate::rng::prg_bytes(5, 5, 5, 40_000)).map_err(|e| e.to_string())?;
+        w.close().map_err(|e| e.to_string())?;
+        let seg = std::fs::read_dir(&dir).map_err(|e| e.to_string())?.flatten().map(|e| e.path()).find(|p| p.extension().map(|x| x == "wal").unwrap_or(false)).ok_or("no segment")?;
+        let bytes = std::fs::read(&seg).map_err(|e| e.to_string())?;
+        std::fs::write(&seg, &bytes[..9]).map_err(|e| e.to_string())?; // compression header + 1 byte of the next header
+        let appended: Vec<Vec<u8>> = vec![b"after".to_vec(), vec![9u8; 700]];
+        let mut w = VerifWal::open(&dir, 1 << 30, true).map_err(|e| e.to_string())?;
+        for a in &appended {
+            w.append(a).map_err(|e| e.to_string())?;
+        }
+        w.close().map_err(|e| e.to_string())?;
+        let (got, end) = verif_wal_read_segment(&seg).map_err(|e| e.to_string())?;
+        let got: Vec<Vec<u8>> = got.into_iter().map(|x| x.0).collect();
+        if got != appended || end != VerifWalEnd::Eof {
+            return Err(format!("compressed segment cut 1 byte into its first record header; reopened; 2 records appended; reading yields {} records and ends with {:?}", got.len(), end));
+        }
+        Ok(())
+    })
+}
+
+fn c18_separator_overflow(dir: PathBuf) -> ScenFut<'static> {
+    Box::pin(async move {
+        use surrealkv::bplustree::tree::new_disk_tree;
+        std::fs::create_dir_all(&dir).map_err(|e| e.to_string())?;
+        let big = |tag: &str, n: usize| -> Vec<u8> {
+            let mut k = tag.as_bytes().to_vec();
+            k.extend(std::iter::repeat(b'K').take(n - tag.len()));
+            k
+        };
+        // (key, value length); None = delete  [minimised from generated sequences]
+        let leak: Vec<(Vec<u8>, Option<usize>)> = vec![
+            (b"key000354".to_vec(), Some(878)),
+            (b"key000112".to_vec(), Some(419)),
+            (big("big0054", 3126), Some(40)),
+            (b"key000076".to_vec(), Some(503)),
+            (b"key000281".to_vec(), Some(691)),
+            (b"key000447".to_vec(), Some(16077)),
+            (big("big0040", 2977), Some(41)),
+            (big("big0010", 1950), Some(29441)),
+            (big("big0226", 1095), Some(20)),
+            (big("big0080", 4490), Some(8)),
+            (b"key000223".to_vec(), Some(827)),
+            (big("big0080", 4490), None),
+            (big("big0040", 2977), None),
+        ];
+        let reopen: Vec<(Vec<u8>, Option<usize>)> = vec![
+            (b"key000281".to_vec(), Some(4136)),
+            (b"key000112".to_vec(), Some(419)),
+            (big("big0054", 1068), Some(40)),
+            (b"key000202".to_vec(), Some(934)),
+            (big("big0010", 1035), Some(13)),
+            (b"key000101".to_vec(), Some(45)),
+            (b"key000076".to_vec(), Some(503)),
+            (b"key000281".to_vec(), Some(691)),
+            (b"key000124".to_vec(), Some(48)),
+            (big("big0040", 982), Some(41)),
+            (big("big0290", 1008), Some(40)),
+            (big("big0010", 1035), None),
+            (big("big0226", 1014), Some(20)),
+            (big("big0080", 1010), Some(8)),
+            (b"key000103".to_vec(), Some(48)),
+            (b"key000057".to_vec(), Some(28)),
+            (b"key000014".to_vec(), Some(40)),
+            (b"key000035".to_vec(), Some(17829)),
+            (b"key000108".to_vec(), Some(4096)),
+            (b"key000041".to_vec(), Some(741)),
+            (b"key000129".to_vec(), Some(4180)),
+            (b"key000124".to_vec(), Some(47)),
+            (b"key000035".to_vec(), None),
+        ];
+        for (name, ops) in [("leak", leak), ("reopen", reopen)] {
+            let path = dir.join(format!("{name}.bpt"));
+            let cmp: std::sync::Arc<dyn surrealkv::Comparator> = std::sync::Arc::new(surrealkv::BytewiseComparator {});
+            let mut t = new_disk_tree(&path, cmp.clone()).map_err(|e| e.to_string())?;
+            let mut model: std::collections::BTreeMap<Vec<u8>, Vec<u8>> = Default::default();
+            for (i, (k, v)) in ops.iter().enumerate() {
+                match v {
+                    Some(n) => {
+                        let val = vec![(i % 251) as u8; *n];
+                        t.insert(k, &val).map_err(|e| format!("insert #{i}: {e}"))?;
+                        model.insert(k.clone(), val);
+                    }
+                    None => {
+                        t.delete(k).map_err(|e| format!("delete #{i}: {e}"))?;
+                        model.remove(k);
+                    }
+                }
+            }
+            let cs = t.verif_census().map_err(|e| format!("{name}: census: {e}"))?;
+            if cs.unaccounted_pages > 0 || !cs.pages_seen_twice.is_empty() {
+                return Err(format!("keys longer than the inline limit, leaf redistribution: {} of {} pages are neither reachable nor free, pages reachable twice: {:?}", cs.unaccounted_pages, cs.total_pages, cs.pages_seen_twice));
+            }
+            t.flush().map_err(|e| e.to_string())?;
+            drop(t);
+            let t = new_disk_tree(&path, cmp).map_err(|e| format!("keys longer than the inline limit, leaf redistribution, close: reopening the tree fails: {e}"))?;
+            for (k, v) in &model {
+                let got = t.get(k).map_err(|e| format!("get after reopen: {e}"))?;
+                if got.as_ref().map(|b| b.to_vec()).as_ref() != Some(v) {
+                    return Err(format!("after reopen get of a {}-byte key returns {:?} bytes, expected {}", k.len(), got.map(|b| b.len()), v.len()));
+                }
+            }
+        }
+        Ok(())
+    })
+}
+
 pub fn all() -> Vec<Scenario> {
     vec![
+        Scenario {
+            id: "C18-separator-overflow-on-leaf-redistribution",
+            property: "C18",
+            title: "keys longer than the inline limit as parent separators while leaves redistribute",
+            run: c18_separator_overflow,
+        },
+        Scenario {
+            id: "C12-torn-tail-behind-compression-header",
+            property: "C12",
+            title: "compressed segment cut inside its first record, reopened and appended to",
+            run: c12_torn_tail_behind_compression_header,
+        },
         Scenario {
             id: "C17-stall-signal-at-yield-point",
             property: "C17",
